@@ -315,7 +315,7 @@ func TestCheck(t *testing.T) {
 	}
 	r.Count("kind_sequences", int64(len(jobs)))
 	// random longer pipelines after an accepted CONNECT
-	np := r.Pick(1500, 30000)
+	np := r.Pick(1500, 120000)
 	for i := 0; i < np; i++ {
 		seq := []packet.Generic{instance(packet.CONNECT, rng, i%2)}
 		q2 := 0
